@@ -36,13 +36,16 @@ Record node_st := mkNode {
   n_hint  : Z;                   (* Node.intErrNum, -1 = unset *)
   n_attrs : list Z }.            (* assigned attribute handles (map contents) *)
 
+(* a referencing enum signal: handle, bits available to it in its layout (= layout size - start
+   bit; None: no parent layout), and whether that layout is a message (true) or a group of a
+   multiplexer signal that is itself outside any message (false) *)
+Record ref_st := mkRef { r_sig : Z; r_cap : option Z; r_msg : bool }.
+
 Record enum_st := mkEnum {
   e_vals : list (Z * Z);         (* (value handle, index): map contents *)
   e_max  : Z;                    (* maxIndex *)
   e_min  : Z;                    (* minSize *)
-  e_refs : list (Z * option Z);  (* referencing enum signals: handle, bits available to it in its
-                                    layout = layout size - start bit, free space behind it
-                                    included (None: signal has no parent message) *)
+  e_refs : list ref_st;
   e_hint : option Z }.           (* SignalEnum.parErrID, None = "" *)
 
 Record msg_st := mkMsg {
@@ -84,7 +87,7 @@ Definition set_name (nd : node_st) (nm : Z) := mkNode nm (n_id nd) (n_ifs nd) (n
 Definition set_ifs (nd : node_st) (l : list (option nat)) := mkNode (n_name nd) (n_id nd) l (n_hint nd) (n_attrs nd).
 Definition set_attrs (nd : node_st) (l : list Z) := mkNode (n_name nd) (n_id nd) (n_ifs nd) (n_hint nd) l.
 Definition set_ehint (e : enum_st) (h : option Z) := mkEnum (e_vals e) (e_max e) (e_min e) (e_refs e) h.
-Definition set_erefs (e : enum_st) (l : list (Z * option Z)) := mkEnum (e_vals e) (e_max e) (e_min e) l (e_hint e).
+Definition set_erefs (e : enum_st) (l : list ref_st) := mkEnum (e_vals e) (e_max e) (e_min e) l (e_hint e).
 Definition set_evals (e : enum_st) (l : list (Z * Z)) (mx : Z) := mkEnum l mx (e_min e) (e_refs e) (e_hint e).
 
 (* insertion sort of a COPY on an integer key (slices.SortFunc on the fresh slice) *)
@@ -111,8 +114,8 @@ Definition node_errorf (nd : node_st) : node_st * list Z :=
     end
   else (nd, [K_NODE]).
 
-Definition sig_route (r : Z * option Z) : list Z :=
-  K_SIG :: match snd r with Some _ => [K_MSG] | None => [] end.
+Definition sig_route (r : ref_st) : list Z :=
+  K_SIG :: if r_msg r then [K_MSG] else [].
 
 (* signal_enum.go:59-82.  The only store: se.parErrID = "", executed iff the hint is set. *)
 Definition enum_errorf (e : enum_st) : enum_st * list Z :=
@@ -121,7 +124,7 @@ Definition enum_errorf (e : enum_st) : enum_st * list Z :=
   | _ :: _ =>
       match e_hint e with
       | Some sg =>
-          match find (fun r => fst r =? sg) (e_refs e) with
+          match find (fun r => r_sig r =? sg) (e_refs e) with
           | Some r => (set_ehint e None, K_ENUM :: sig_route r)
           | None => (e, [K_PANIC])          (* refs.getValue fails: panic(err) *)
           end
@@ -142,7 +145,7 @@ Inductive mut_op :=
 | MNodeRename (n : nat) (newname : Z)   (* Node.UpdateName *)
 | MNodeAssignAttr (n : nat) (a : Z)     (* Node.AssignAttribute (valid attribute) *)
 | MNodeRemoveAttr (n : nat) (a : Z)     (* Node.RemoveAttributeAssignment: miss -> errorf *)
-| MEnumAddRef (e : nat) (sg : Z) (room : option Z)  (* NewEnumSignal (+ AppendSignal to a message) *)
+| MEnumAddRef (e : nat) (sg : Z) (room : option Z) (inmsg : bool)  (* NewEnumSignal (+ AppendSignal to a message / InsertSignal into a multiplexer group) *)
 | MEnumDelRef (e : nat) (sg : Z)
 | MEnumAddValue (e : nat) (v idx : Z)   (* SignalEnum.AddValue *)
 | MEnumRemoveValue (e : nat) (v : Z)    (* SignalEnum.RemoveValue: miss -> errorf *)
@@ -172,11 +175,14 @@ Definition enum_size (e : enum_st) : Z := Z.max (e_min e) (size_of (e_max e)).
 (* verifyValueIndex: the first referencing signal (iteration order) that cannot grow to the new
    size (verifySignalSizeAmount -> verifyBeforeGrow: amount > space behind the signal, i.e. new
    size > bits available) *)
-Fixpoint grow_scan (need : Z) (refs : list (Z * option Z)) : option Z :=
+Fixpoint grow_scan (need : Z) (refs : list ref_st) : option Z :=
   match refs with
   | [] => None
-  | (sg, Some room) :: r => if room <? need then Some sg else grow_scan need r
-  | (_, None) :: r => grow_scan need r
+  | x :: r =>
+      match r_cap x with
+      | Some room => if room <? need then Some (r_sig x) else grow_scan need r
+      | None => grow_scan need r
+      end
   end.
 
 Definition ERR (route : list Z) : list Z := (-1) :: route.
@@ -248,10 +254,10 @@ Definition mstep (s : state) (op : mut_op) : state * list Z :=
           else let r := node_errorf nd in
                (set_nodes s (upd_nth n (fun _ => fst r) (nodes s)), ERR (snd r))
       end
-  | MEnumAddRef e sg room =>
-      (set_enums s (upd_nth e (fun x => set_erefs x (e_refs x ++ [(sg, room)])) (enums s)), OK)
+  | MEnumAddRef e sg room inmsg =>
+      (set_enums s (upd_nth e (fun x => set_erefs x (e_refs x ++ [mkRef sg room inmsg])) (enums s)), OK)
   | MEnumDelRef e sg =>
-      (set_enums s (upd_nth e (fun x => set_erefs x (filter (fun r => negb (fst r =? sg)) (e_refs x))) (enums s)), OK)
+      (set_enums s (upd_nth e (fun x => set_erefs x (filter (fun r => negb (r_sig r =? sg)) (e_refs x))) (enums s)), OK)
   | MEnumAddValue e v idx =>
       match nth_error (enums s) e with
       | None => (s, ERR [])
